@@ -178,13 +178,15 @@ struct Plan {
     wider_fetch: bool,
 }
 
-fn gen_plan(rng: &mut Rng, xorbs: &[Xorb], port: u16) -> Plan {
+fn gen_plan(rng: &mut Rng, xorbs: &[Xorb], port: u16, shared_url: bool) -> Plan {
     let nterms = match rng.below(5) {
         0 => 1,
         1 => rng.urange(1, 3),
         _ => rng.urange(1, 60),
     };
-    let same_url = rng.chance(1, 6);
+    // `--shared-url` (C20's use-site job): every fetch range of a xorb sits behind the same url, so the
+    // range-download singleflight key is the only thing keeping concurrent downloads apart
+    let same_url = rng.chance(1, 6) || shared_url;
     let mut terms = Vec::new();
     let mut term_xorb = Vec::new();
     let mut expected = Vec::new();
@@ -356,6 +358,17 @@ fn run_huge(args: &Args, rep: &mut Report, server: &Server, tp: &Arc<ThreadPool>
 }
 
 pub fn run(args: &Args, rep: &mut Report) {
+    run_inner(args, rep);
+    // C20's use-site job: the same monitor, reported under the property whose anchor (the
+    // range-download singleflight key in cas_client/src/remote_client.rs) it exercises
+    if args.has("shared-url") {
+        if let Some(p) = rep.props.remove(P) {
+            rep.props.insert("C20".to_string(), p);
+        }
+    }
+}
+
+fn run_inner(args: &Args, rep: &mut Report) {
     let server = Server::start();
     let tp = Arc::new(ThreadPool::new().expect("threadpool"));
     // a write beyond RLIMIT_FSIZE must come back as an error (EFBIG), not kill the process
@@ -377,7 +390,7 @@ pub fn run(args: &Args, rep: &mut Report) {
         }
         server.set_blobs(blobs);
         server.set_delay(if rng.chance(2, 3) { Some(rng.next_u64()) } else { None });
-        let plan = gen_plan(&mut rng, &xorbs, server.port);
+        let plan = gen_plan(&mut rng, &xorbs, server.port, args.has("shared-url"));
         let flen = plan.expected.len();
         let tmp = tempfile::tempdir().unwrap();
         let cache_mode = rng.below(3); // 0 off, 1 large, 2 small
